@@ -144,7 +144,7 @@ fn fresh_rx() -> (StdUdp, SocketAddr) {
         } as u16;
         {
             let mut c = COOLING.lock().unwrap();
-            c.retain(|(_, t)| t.elapsed() < std::time::Duration::from_millis(1500));
+            c.retain(|(_, t)| t.elapsed() < std::time::Duration::from_millis(120));
             if c.iter().any(|(p, _)| *p == port) {
                 continue;
             }
